@@ -148,6 +148,20 @@ func (c *Canary) VerifRebaseISS(src, dst net.IP, sport, dport uint16, iss uint32
 	return true
 }
 
+// VerifSetID sets the IPv4 identification counter of the connection the
+// 4-tuple resolves to, as if that value had been drawn when the state was
+// created (the drawn value is not steerable otherwise).
+func (c *Canary) VerifSetID(src, dst net.IP, sport, dport uint16, id uint32) bool {
+	s := c.stateTable.Get(src, dst, sport, dport)
+	if s == nil {
+		return false
+	}
+	s.m.Lock()
+	defer s.m.Unlock()
+	s.ID = id
+	return true
+}
+
 // VerifStateCount returns the number of occupied slots of the state table.
 func (c *Canary) VerifStateCount() int {
 	n := 0
